@@ -34,7 +34,7 @@ type DefsCase struct {
 }
 
 var defsKinds = []string{"defflavor", "defflavor", "flavor-method", "flavor-method", "defclass", "defclass", "defgeneric",
-	"generic-method", "generic-method", "defpackage"}
+	"generic-method", "generic-method", "defpackage", "flavor-hierarchy", "class-hierarchy"}
 
 func genDefsCase(t *rapid.T) DefsCase {
 	w := newWorldOpts(t, true)
@@ -44,7 +44,7 @@ func genDefsCase(t *rapid.T) DefsCase {
 
 var (
 	worldID  atomic.Int64
-	globalRe = regexp.MustCompile(`\bz(fl|pn|p|c|g)([0-9]+)\b`)
+	globalRe = regexp.MustCompile(`\bz(fl|pn|p|c|g)([a-z]?[0-9]+)\b`)
 )
 
 func nextID() string { return fmt.Sprintf("u%06d", worldID.Add(1)) }
